@@ -28,7 +28,9 @@ RULE = ("cases are (layout, 1-3 catalogue operations sharing that layout as oper
         "operation family, sizes biased to 0/1/2, plus invalid layouts (one rule broken) fed to the check/print/convert "
         "entry points; non-trivial = some operand has length > 0 or the case is a designated corner (zero-length, "
         "size-0/size-1 regular, n > size); distinct = distinct SHA-1 of the case descriptor")
-VARIANTS = {"quick": ["asan"], "thorough": ["asan", "plain"]}
+# asan only: on the uninstrumented build the recorded heap overflows (F10, F15) corrupt the allocator silently and the
+# worker dies later, outside the offending case, which attributes nothing (thorough runs ended inconclusive)
+VARIANTS = {"quick": ["asan"], "thorough": ["asan"]}
 BUDGET = {"quick": dict(cases=30000, seconds=75), "thorough": dict(cases=500000, seconds=1500)}
 MIN_NONTRIVIAL = {"quick": 1500, "thorough": 30000}
 ASSUMPTIONS = [
